@@ -454,12 +454,13 @@ def enc(env, t, v, out, split=False):
             out.append([1])
             enc(env, t[1], v, out, split)
     elif k == "union":
+        # docs/reference/binary.md, Unions: "The index is written as an unsigned varint"
         if v is None:
-            out.append([t[1].index(None)])
+            out.append(list(_c_uvarint(t[1].index(None))))
         else:
             nn = [i for i, c in enumerate(t[1]) if c is not None]
             tag = nn[type(v).index]
-            out.append([tag])
+            out.append(list(_c_uvarint(tag)))
             enc(env, t[1][tag], v.value, out, split)
     elif k == "vector":
         out.append(list(_c_uvarint(len(v))))
